@@ -299,6 +299,57 @@ def reencode(S, msg, maxsize):
                                         eq(bytes(m2.data), bytes(msg.data)), len(m2.annotations) == len(msg.annotations)))
 
 
+class PlainSock:
+    """serves concrete bytes, then end-of-stream"""
+
+    def __init__(self, data):
+        self.data = data
+        self.pos = 0
+
+    def recv(self, n, flags=0):
+        chunk = self.data[self.pos:self.pos + n]
+        self.pos += len(chunk)
+        return chunk
+
+    def getpeername(self):
+        return ("10.0.0.1", 1)
+
+    def gettimeout(self):
+        return None
+
+
+def h_compressed_body(S, B):
+    """DEFLATE itself is outside the byte model, so this spec is concrete: a real compressed message (built by the real
+    sender with the real zlib) whose compressed body is cut short by k bytes -- with the header's length field adjusted, so
+    that the framing still tiles -- is not a well-formed message: the decoder must refuse it, never hand out a shorter
+    payload.  The complete message is decoded to the payload that was sent."""
+    config.COMPRESSION = True
+    config.MAX_MESSAGE_SIZE = S.choice("MAX_MESSAGE_SIZE", [1 << 20, 4000])
+    payload = bytes(range(256)) * S.choice("payload_blocks", [2, 12])
+    msg = protocol.SendingMessage(protocol.MSG_RESULT, 0, 7, 3, payload)
+    wire = bytes(msg.data)
+    body = wire[HEADER:]
+    S.check("sender-compressed-the-payload", (msg.flags & protocol.FLAGS_COMPRESSED) != 0 and len(body) < len(payload))
+    cut = S.choice("bytes_cut_from_the_compressed_body", [0, 1, 2, 5, len(body) // 2, len(body) - 1])
+    S.assume(cut < len(body), "the cut leaves at least one byte of the body")
+    short = body[:len(body) - cut]
+    fields = list(struct.unpack(protocol._header_format, wire[:HEADER]))
+    fields[6] = len(short)                      # data_size
+    data = struct.pack(protocol._header_format, *fields) + short
+    conn = socketutil.SocketConnection(PlainSock(data))
+    got = err = None
+    try:
+        got = protocol.recv_stub(conn)
+    except Exception as x:
+        err = x
+    S.cover("compressed:" + ("complete" if cut == 0 else "cut"))
+    if cut == 0:
+        S.check("complete-compressed-message-decodes-to-the-payload", err is None and bytes(got.data) == payload)
+    else:
+        S.check("truncated-compressed-body-is-refused", got is None and err is not None)
+    S.observe("outcome", type(err).__name__ if err is not None else len(got.data))
+
+
 def _reset():
     from pysym.runner import default_reset
     default_reset()
@@ -321,4 +372,8 @@ SPECS = [
                  "check:re-encode-equivalent"],
          native_patch=env.native_env_zlib, reset=_reset,
          desc="recv_stub on N arbitrary symbolic bytes (every prefix length 0..N available), differential against an independent reference decoder"),
+    Spec("compressed_body", h_compressed_body, {"quick": {}, "thorough": {}},
+         covers=["compressed:complete", "compressed:cut", "check:truncated-compressed-body-is-refused"],
+         native_patch=env.native_env, reset=_reset,
+         desc="(concrete: DEFLATE is outside the byte model) a real compressed message with 0/1/2/5/half/all-but-one bytes cut from its compressed body and the length field adjusted: refused unless complete; two payload sizes, two MAX_MESSAGE_SIZE values"),
 ]
